@@ -99,15 +99,20 @@ func recvBytes(l []byte) ([]byte, bool) {
 	return l[:n+3], true
 }
 
-// tokenBlock builds a single-block message carrying a token: (header, body).
-func tokenBlock(toEquip bool, tok int) ([10]byte, []byte) {
+// tokenBlock builds block idx (0-based) of a message carrying a token: (header, body).
+func tokenBlock(toEquip bool, tok int) ([10]byte, []byte) { return tokenBlockAt(toEquip, tok, 0, true) }
+
+func tokenBlockAt(toEquip bool, tok, idx int, last bool) ([10]byte, []byte) {
 	var h [10]byte
 	if !toEquip {
 		h[0] = 0x80
 	}
 	h[1] = 1
 	h[2], h[3] = 1, 1
-	h[4], h[5] = 0x80, 1
+	h[4], h[5] = byte((idx+1)>>8), byte(idx+1)
+	if last {
+		h[4] |= 0x80
+	}
 	h[6], h[7], h[8], h[9] = 0, 0, byte(tok>>8), byte(tok)
 	return h, []byte{0x21, 0x02, byte(tok >> 8), byte(tok)}
 }
@@ -134,8 +139,10 @@ type simPeer struct {
 	handed   int
 	yields   int
 	deliv    []int
-	lastTok  int
+	lastHdr  [10]byte
 	haveLast bool
+	openTok  int // message in progress: token and next expected index; openNext == 0: none
+	openNext int
 	outq     [][]byte // written, not yet through the line
 	waitFrom time.Duration
 }
@@ -205,11 +212,25 @@ func (p *simPeer) arrive(data []byte, peerToEquip bool) {
 	case phRecvIdle, phRecvYield:
 		yield := p.ph == phRecvYield
 		if blk, ok := recvBytes(data); ok && !isChar {
-			tok := int(blk[9])<<8 | int(blk[10])
+			var hdr [10]byte
+			copy(hdr[:], blk[1:11])
+			tok := int(hdr[8])<<8 | int(hdr[9])
+			idx := (int(hdr[4]&0x7F)<<8 | int(hdr[5])) - 1
+			last := hdr[4]&0x80 != 0
 			p.handed++
-			if !(p.haveLast && p.lastTok == tok) {
-				p.haveLast, p.lastTok = true, tok
-				p.deliv = append(p.deliv, tok)
+			if !(p.haveLast && p.lastHdr == hdr) { // the assembler: duplicate record, expected index, restart
+				continues := p.openNext > 0 && p.openTok == tok && p.openNext == idx
+				if continues || idx == 0 {
+					p.haveLast, p.lastHdr = true, hdr
+					if last {
+						p.deliv = append(p.deliv, tok)
+						p.openNext = 0
+					} else {
+						p.openTok, p.openNext = tok, idx+1
+					}
+				} else {
+					p.openNext = 0
+				}
 			}
 			p.push(chACK)
 			p.finishRecv(yield, true)
@@ -459,6 +480,7 @@ func unit(c *vh.Ctx) {
 			panic(err)
 		}
 		realTok, peerTok := 100+r.Intn(50), 200+r.Intn(50)
+		realBlocks := []int{1, 1, 2, 3}[r.Intn(4)]
 		var realTodo, peerTodo []int
 		result := ""
 		var delivered []int
@@ -482,8 +504,12 @@ func unit(c *vh.Ctx) {
 				}
 			}
 			s.log = append(s.log, "S "+s.realSide)
-			h, b := tokenBlock(!realMaster, realTok)
-			ec := line.SendBlock(ctx, secs1.VerifBlock{Header: h, Body: b}, limit, deliver)
+			// runSend: the blocks of one message, each through sendBlock, stop at the first error
+			ec := secs1.VerifOK
+			for idx := 0; idx < realBlocks && ec == secs1.VerifOK; idx++ {
+				h, b := tokenBlockAt(!realMaster, realTok, idx, idx == realBlocks-1)
+				ec = line.SendBlock(ctx, secs1.VerifBlock{Header: h, Body: b}, limit, deliver)
+			}
 			switch ec {
 			case secs1.VerifOK:
 				result = "ok"
@@ -528,10 +554,17 @@ func unit(c *vh.Ctx) {
 		m := line.Metrics()
 		obs := fmt.Sprintf("%s handed=%d yields=%d sendok=%d failed=%d", result, m.BlockRecvCount(), m.ContentionYieldCount(),
 			m.BlockSendCount(), m.BlockSendFailedCount())
-		lhs := fmt.Sprintf("U %s %d %d %s %s %s", s.realSide, limit, peerLimit, toks(realTodo), toks(peerTodo), strings.Join(s.log, " ; "))
+		rt := toks(realTodo)
+		if len(realTodo) > 0 {
+			rt = fmt.Sprintf("%d:%d", realTok, realBlocks)
+		}
+		lhs := fmt.Sprintf("U %s %d %d %s %s %s", s.realSide, limit, peerLimit, rt, toks(peerTodo), strings.Join(s.log, " ; "))
 		lineS := lhs + " | " + obs
 		c.Case(lineS, lineS, len(s.log) > 6)
 		c.Count("U/" + op + "/" + result)
+		if op != "recv" {
+			c.Count(fmt.Sprintf("U/blocks=%d", realBlocks))
+		}
 
 		// oracle (property on the real code, no model)
 		attempts := 0
@@ -545,7 +578,7 @@ func unit(c *vh.Ctx) {
 			if realMaster && y != 0 {
 				c.Fail("the master yielded to a contending ENQ", lineS)
 			}
-			if attempts > (limit+1)*(y+1) {
+			if attempts > (limit+1)*(y+realBlocks) {
 				c.Fail(fmt.Sprintf("block attempted %d times with retry limit %d and %d yields", attempts, limit, y), lineS)
 			}
 			if result == "ok" {
